@@ -28,7 +28,7 @@ def gen_cases(tier, seed):
     out = []
     for i in range(n):
         s = env.seed_for(seed, ID, tier, i)
-        r = random.Random(s)
+        r = random.Random(env.seed_for(s, "descriptor"))  # independent of the stream run_case derives from the same seed
         out.append({"seed": s, "op": r.choice(OPS), "n": r.randint(1, 18 if tier == "quick" else 40), "W": r.choice([1, 2, 4, 8]),
                     "sched": r.choice(["default", "random"])})
     return out
